@@ -1,9 +1,9 @@
 (** C05 property theorems (part fit): statements only, each closed by [exact]; proofs are in C05/C05_Proofs.v, C05/C05_Wave2.v,
-    C05/C05_Fit.v (shared lemmas in C05/C05_Rot.v, C05/C05_Jet.v); the catalogue is C05/C05_Model.v, written from the public
+    C05/C05_Fit.v, C05/C05_Partial.v (shared lemmas in C05/C05_Rot.v, C05/C05_Jet.v); the catalogue is C05/C05_Model.v, written from the public
     headers MobilizedBody_*.h; the Euler / quaternion N blocks come from Gen/rot_gen.v (regenerated from Rotation.h). *)
 From Coq Require Import ZArith Reals List.
 From Coquelicot Require Import Coquelicot.
-Require Import Num Vec rot_gen C28_Defs C28_Proofs C05_Model C05_Rot C05_Jet C05_Proofs C05_Wave2 C05_Fit.
+Require Import Num Vec rot_gen C28_Defs C28_Proofs C05_Model C05_Rot C05_Jet C05_Proofs C05_Wave2 C05_Fit C05_Partial.
 Local Open Scope R_scope.
 
 Theorem C05_Ratan2_cos_sin c s : c*c + s*s = 1 -> cos (Ratan2 s c) = c /\ sin (Ratan2 s c) = s.
